@@ -189,6 +189,54 @@ impl Pattern {
         Pattern::regex_with(src, &opts).ok()
     }
 
+    /// Splits the pattern into the directory that is given literally at its beginning, and
+    /// the rest, e.g. `/a/b/*.txt` into `/a/b/` and `*.txt`. The directory ends with a separator.
+    /// Returns `None` if the pattern doesn't start with a literal directory.
+    pub fn split_literal_dir(&self) -> Option<(String, Pattern)> {
+        let mut literal = String::new();
+        // lengths of `literal` and of the consumed part of `src` after each separator
+        let mut dirs: Vec<(usize, usize)> = Vec::new();
+        let mut chars = self.src.char_indices().peekable();
+        while let Some((i, c)) = chars.next() {
+            let (c, next) = match c {
+                '\\' => match chars.next() {
+                    // an escaped alphanumeric character is a character class or an assertion
+                    Some((j, e)) if !e.is_alphanumeric() => (e, j + e.len_utf8()),
+                    _ => break,
+                },
+                '.' | '^' | '$' | '(' | ')' | '[' | ']' | '{' | '}' | '|' | '*' | '+' | '?' => {
+                    break
+                }
+                c => (c, i + c.len_utf8()),
+            };
+            // a quantifier applies to the character before it, so that one is not literal
+            if let Some((_, '*' | '+' | '?' | '{')) = chars.peek() {
+                break;
+            }
+            literal.push(c);
+            if c == MAIN_SEPARATOR {
+                dirs.push((literal.len(), next));
+            }
+        }
+        let (literal_len, src_len) = dirs.pop()?;
+        literal.truncate(literal_len);
+        let opts = PatternOpts {
+            case_insensitive: self.anchored_regex.is_case_insensitive(),
+        };
+        let rest = Pattern::regex_with(&self.src[src_len..], &opts).ok()?;
+        Some((literal, rest))
+    }
+
+    /// Returns a pattern that matches what this pattern or the other pattern matches
+    pub fn or(self, other: Pattern) -> Pattern {
+        let opts = PatternOpts {
+            case_insensitive: self.anchored_regex.is_case_insensitive()
+                || other.anchored_regex.is_case_insensitive(),
+        };
+        let regex = format!("(?:{})|(?:{})", self.src, other.src);
+        Pattern::regex_with(regex.as_str(), &opts).unwrap()
+    }
+
     /// Returns true if this pattern fully matches the given path
     pub fn matches(&self, path: &str) -> bool {
         self.anchored_regex.is_match(path)
